@@ -58,8 +58,18 @@ def handle : Handler := fun op j =>
           let restored := match mapE (restoreLeaf store order) ens with
             | .ok ls => Json.arr (ls.map leafJson).toArray
             | .error e => Json.mkObj [("error_restore", errStr e)]
+          -- optional restore targets, one per leaf: null | {"dtype","shape","bytes"}
+          let dsts : List (Option Ts.Serial.Tensor) := match j.getObjVal? "dst" with
+            | .ok (Json.arr a) => a.toList.map (fun d => match getStr d "dtype", getNatList d "shape", getNatList d "bytes" with
+                | .ok dt, .ok sh, .ok bs => some ⟨dt, sh, bs⟩
+                | _, _, _ => none)
+            | _ => ens.map (fun _ => none)
+          let restoredInto := Json.arr ((ens.zip dsts).map (fun ed =>
+            match restoreLeafInto store (fun _ _ u => readUnit store u) order ed.2 ed.1 with
+            | .ok l => leafJson l
+            | .error e => Json.mkObj [("error_restore", errStr e)])).toArray
           pure (Json.mkObj [("entries", Json.arr (ens.map entryJson).toArray), ("objects", Json.arr objs.toArray),
-            ("restored", restored)])
+            ("restored", restored), ("restored_into", restoredInto)])
   | _ => none
 
 end Ts.Drv.SnapshotOps
